@@ -229,8 +229,15 @@ class PKONESerialCommunicator(BaseSerialCommunicator):
             if not msg:
                 continue
 
-            if msg.decode() not in self.ignored_messages:
-                self.platform.process_received_message(msg.decode())
+            try:
+                msg_str = msg.decode('ascii')
+            except UnicodeDecodeError:
+                # line noise. drop this message, the next 'E' resynchronises us
+                self.log.warning("Received garbled message from PKONE: %s", msg)
+                continue
+
+            if msg_str not in self.ignored_messages:
+                self.platform.process_received_message(msg_str)
 
     def send(self, msg):
         """Send a message to the remote processor over the serial connection.
